@@ -100,6 +100,17 @@ def generate(prop, rng, tier):
                        "fh": [1, 2]},
                 "grid": {"strategy": ["last", "mean", "drift"], "window_length": [3, 4]},
                 "n_jobs": rng.choice([None, 2, 3]), "refit": True}
+    if prop == "C10" and rng.random() < 0.06:
+        # pipelines whose transformers keep what they learnt in fit (seasonal components
+        # aligned to the training start) across updates
+        spec = {"kind": "ttf",
+                "transformers": [{"kind": rng.choice(["deseason", "deseason", "cdeseason"]),
+                                  "sp": rng.choice([2, 3, 4]),
+                                  "model": rng.choice(["additive", "multiplicative"])}],
+                "forecaster": rng.choice([
+                    {"kind": "naive", "strategy": rng.choice(["last", "mean", "drift"]), "sp": 1,
+                     "window_length": None},
+                    {"kind": "trend", "degree": 1, "with_intercept": True}])}
     fh_fit_needed = C.needs_fh_at_fit(spec)
     fit_steps = _gen_steps(rng)
     max_h = 8
@@ -1057,7 +1068,7 @@ class Engine:
                        "after fit+update(s) predict(%s) gives %s, a fresh forecaster fitted on all "
                        "data seen gives %s" % (steps, C.fmt(p), C.fmt(q)), op="predict")
         elif self.snap_fit is not None and len(self.since_fit) >= 2 and self.all_up \
-                and self.spec["kind"] in ("theta", "stack") and not self.after_upd:
+                and _batching_invariant(self.spec) and not self.after_upd:
             # several updates with update_params=True == one update with all of their data:
             # these updates recompute their parameters from the whole remembered series (Theta:
             # trend; stacking: members refitted, meta-learner untouched)
@@ -1277,6 +1288,25 @@ class _FaultyCV:
             def get_fh(self):
                 return self._inner.get_fh()
         return FaultyCV()
+
+
+def _batching_invariant(spec):
+    """update(update_params=True) recomputes everything it recomputes from the whole remembered
+    series: Theta, stacking, and pipelines whose transformers learn nothing in update
+    (seasonal components and Box-Cox lambda stay those of fit; a Detrender would re-estimate
+    its trend and leave the earlier transformed history as it was, which legitimately depends
+    on the batching)."""
+    k = spec["kind"]
+    if k in ("theta", "stack"):
+        return True
+    if k == "ttf":
+        def t_ok(t):
+            if t["kind"] == "optional":
+                return t_ok(t["transformer"])
+            return t["kind"] in ("deseason", "cdeseason", "log", "boxcox")
+        f = spec["forecaster"]
+        return all(t_ok(t) for t in spec["transformers"]) and f["kind"] in ("naive", "trend")
+    return False
 
 
 def _time_only(spec):
